@@ -61,6 +61,37 @@ package rwriter
 //@   at call apierror.New#6: assert arg1 == 400
 //@   at call apierror.New#7: assert arg1 == 400
 //@   at call apierror.New#8: assert arg1 == 400
+// ... and a request is refused for these reasons only: a media type that does not parse; no Accept header
+// unless JSON is preferred; no supported media type; no resource type; a multihash key that is neither
+// base58 nor hex; a CID key that does not decode; an unknown resource type; a key that is no multihash.
+//@   ghost why := false
+//@   ghost mtErr := false
+//@   ghost b58Err := false
+//@   ghost hexErr := false
+//@   ghost cidErr := false
+//@   ghost mhErr := false
+//@   at call ParseMediaType#1: after ghost mtErr := result2 != nil
+//@   at call base58.Decode#1: after ghost b58Err := result1 != nil
+//@   at call DecodeString#1: after ghost hexErr := result1 != nil
+//@   at call cid.Decode#1: after ghost cidErr := result1 != nil
+//@   at call multihash.Decode#1: after ghost mhErr := result1 != nil
+//@   at call apierror.New#1: assert mtErr
+//@   at call apierror.New#1: ghost why := true
+//@   at call apierror.New#2: assert len(accepts) == 0 && !opts.preferJson
+//@   at call apierror.New#2: ghost why := true
+//@   at call apierror.New#3: assert len(accepts) != 0 && !okJson && !nd
+//@   at call apierror.New#3: ghost why := true
+//@   at call apierror.New#4: assert str(pathType) == str("")
+//@   at call apierror.New#4: ghost why := true
+//@   at call apierror.New#5: assert b58Err && hexErr
+//@   at call apierror.New#5: ghost why := true
+//@   at call apierror.New#6: assert str(pathType) != str(opts.mhPathType) && str(pathType) != str(opts.cidPathType)
+//@   at call apierror.New#6: ghost why := true
+//@   at call apierror.New#7: assert cidErr
+//@   at call apierror.New#7: ghost why := true
+//@   at call apierror.New#8: assert mhErr
+//@   at call apierror.New#8: ghost why := true
+//@   ensures-local result1 != nil && !optErr ==> why
 //@   ensures-local result1 != nil && !optErr ==> count("call:apierror.New") == 1 && typeis(result1, "*apierror.Error")
 //@   ensures-local result1 == nil ==> result0 != nil && count("call:apierror.New") == 0 && result0.status == 200
 //@   ensures-local result1 == nil ==> (result0.nd ==> count("call:Set") == 3) && (!result0.nd ==> count("call:Set") == 1)
